@@ -1,5 +1,5 @@
 """C10 — label-based access addresses exactly the labelled periods."""
-import itertools, json
+import datetime, itertools, json
 
 import numpy as np
 import pandas as pd
@@ -18,6 +18,7 @@ THEOREMS = ['Fsic.C10.' + n for n in [
     'no_shadow_step', 'no_shadow_history', 'access_paths_agree_attribute',
     'access_paths_agree_label_write',
     'access_paths_agree_pos_write', 'access_paths_agree_whole_write', 'access_paths_agree_slice_write',
+    'write_touches_only_target',
     'alias_resolves_names_only', 'alias_label_passthrough', 'alias_label_get', 'alias_label_set',
     'alias_missing_label_keyerror', 'alias_paths_agree']]
 RULE = ('every span of each type up to the length bound (ranges with non-zero origin and step, lists and tuples of '
@@ -31,7 +32,11 @@ RULE = ('every span of each type up to the length bound (ranges with non-zero or
         'permuted span of the same type), positions always judged against the span of the object accessed; '
         'alias-enabled classes (AliasMixin over container / model / linker, chained aliases) on string spans whose '
         'labels coincide with alias names, with variable names, with neither — single labels, slice ends and absent '
-        'labels of each kind, through aliases and variable names, all paths read back. '
+        'labels of each kind, through aliases and variable names, all paths read back; whole-series assignment of '
+        'live arrays (another variable\'s own array or a view of it, one caller-owned float64 array given to two '
+        'variables) followed by label / slice / positional writes with read-back of ALL variables; alternative '
+        'spellings of pandas time labels (period / ISO strings, datetime.date, datetime.datetime, partial strings) '
+        'judged by pandas\' get_loc on the span the object was GIVEN, also after copy and reindex. '
         'Whole space enumerated (seed-independent) on VectorContainer; BaseModel (hand-written / parser-built) and '
         'BaseLinker instances take every second span in a fixed rotation (every span in the thorough tier). distinct = distinct (flavour, span, access); non-trivial = the access addresses at least one '
         'period or must raise KeyError')
@@ -47,7 +52,7 @@ ASSUMPTIONS = ['labels identify periods: the oracle speaks about spans whose lab
                'step > 0; spans of length >= 1 for open-ended slices']
 
 META = {
-    "text": "Theorems over the container model M6, for every well-formed store, span, label and slice: Python slice semantics for all bounds and positive steps (pySlice_spec, clamp_spec); a label is located at its first occurrence / at its unique occurrence for NumPy spans and a label not in the span is missing (locate_*); obj[name, label] reads and writes exactly the element at the label's position, nothing else changes (label_get, label_set, label_set_frame); obj[name, a:b:s] addresses pos(a), pos(a)+s, ... up to and including pos(b), nothing if pos(a) > pos(b), open ends = span ends for distinct labels (label_slice_*); a missing label raises KeyError on reads and writes, single or slice end, and leaves the store unchanged (missing_label_keyerror); a value written through label, position, name key / attribute or label slice is read back through each of the others (access_paths_agree_*); what an access addresses depends on the span alone and is unchanged by every history of operations (access_depends_only_on_span, access_unchanged_by_history); through an alias-enabled class (AliasMixin, model M8's resolve composed with M6) the alias is resolved in the name position only and the label or label slice is passed through unchanged, also when it is spelled like an alias or a variable (alias_*). The attribute path is proved when no attribute-list entry carries the variable's name: as shipped, add_variable accepts the name of an existing ad-hoc attribute and obj.name then returns the stale attribute (negation proved at a witness for the shipped configuration, reproduced on the real code, open known finding); for a configuration in which add_variable also checks the attribute list (a reflected switch, probed on every run) that situation is unreachable (no_shadow_step / no_shadow_history) and the attribute path agrees at full strength (access_paths_agree_attribute). pandas get_loc is an input of the model (partial). The model is tied to the code by exhaustive enumeration of spans x labels x slice triples x get/set on all span types, compared after every operation.",
+    "text": "Theorems over the container model M6, for every well-formed store, span, label and slice: Python slice semantics for all bounds and positive steps (pySlice_spec, clamp_spec); a label is located at its first occurrence / at its unique occurrence for NumPy spans and a label not in the span is missing (locate_*); obj[name, label] reads and writes exactly the element at the label's position, nothing else changes (label_get, label_set, label_set_frame); obj[name, a:b:s] addresses pos(a), pos(a)+s, ... up to and including pos(b), nothing if pos(a) > pos(b), open ends = span ends for distinct labels (label_slice_*); a missing label raises KeyError on reads and writes, single or slice end, and leaves the store unchanged (missing_label_keyerror); a value written through label, position, name key / attribute or label slice is read back through each of the others (access_paths_agree_*); what an access addresses depends on the span alone and is unchanged by every history of operations (access_depends_only_on_span, access_unchanged_by_history); a write to one variable leaves every other variable's every cell unchanged, for every store, operand and single-variable assignment — whole-series assignment stores values, variables never share storage (write_touches_only_target); through an alias-enabled class (AliasMixin, model M8's resolve composed with M6) the alias is resolved in the name position only and the label or label slice is passed through unchanged, also when it is spelled like an alias or a variable (alias_*). The attribute path is proved when no attribute-list entry carries the variable's name: as shipped, add_variable accepts the name of an existing ad-hoc attribute and obj.name then returns the stale attribute (negation proved at a witness for the shipped configuration, reproduced on the real code, open known finding); for a configuration in which add_variable also checks the attribute list (a reflected switch, probed on every run) that situation is unreachable (no_shadow_step / no_shadow_history) and the attribute path agrees at full strength (access_paths_agree_attribute). pandas get_loc is an input of the model (partial). The model is tied to the code by exhaustive enumeration of spans x labels x slice triples x get/set on all span types, compared after every operation.",
     "design_ref": "DESIGN.md §5 M6, §6 C10",
     "note": "Partial: pandas' get_loc is not modelled — its recorded answers are inputs. Trusted: Lean kernel; axioms propext/Classical.choice/Quot.sound; the correspondence harness; Python ==/hash for label identity; NumPy basic slicing. The oracle assumes pairwise distinct labels. Attribute-path agreement is claimed only outside the known finding (variable created with the name of an existing attribute).",
     "technique": "Lean 4 proof (slice arithmetic, first-occurrence search, get-after-set lemmas) + exhaustive differential correspondence check"
@@ -79,11 +84,13 @@ def span_catalogue(n):
     out.append(('pindex-int', {'type': 'pindex', 'labels': [L(x) for x in range(3, 3 + n)]}, [3.0], [99, 'x'], []))
     out.append(('pindex-str', {'type': 'pindex', 'labels': [L(x) for x in ['x', 'y', 'z', 'w', 'v', 'u', 't'][:n]]}, [], ['q', 2], []))
     out.append(('period-Y', {'type': 'period', 'start': '2000', 'n': n, 'freq': 'Y'}, [],
-                [pd.Period('1990', freq='Y'), 7], ['2000', '1990']))
+                [pd.Period('1990', freq='Y'), 7], ['2000', '2001', '1990', datetime.date(2000, 6, 1)]))
     out.append(('period-Q', {'type': 'period', 'start': '2000Q3', 'n': n, 'freq': 'Q'}, [],
-                [pd.Period('1990Q1', freq='Q')], ['2000Q4', '2000', '2001']))
+                [pd.Period('1990Q1', freq='Q')], ['2000Q4', '2001Q1', '2000', '2001', '2000-10']))
     out.append(('datetime-D', {'type': 'datetime', 'start': '2000-01-30', 'n': n, 'freq': 'D'}, [],
-                [pd.Timestamp('1999-01-01')], ['2000-01-31', '2000-02', '2000-01']))
+                [pd.Timestamp('1999-01-01')],
+                ['2000-01-31', '2000-02-01', '2000-02', '2000-01', datetime.date(2000, 1, 31),
+                 datetime.datetime(2000, 2, 1), '1999-12-31']))
     if n >= 2:
         dup = ['a', 'b', 'a', 'c', 'b', 'a', 'd'][:n]
         out.append(('list-dup', {'type': 'list', 'labels': [L(x) for x in dup]}, [], ['zz'], []))
@@ -196,7 +203,7 @@ def sequence_cases(flavour, tag, spec, n, equal, absent, partial, steps):
         span, span2 = cc.make_span(spec), cc.make_span(target)
         own = [L(x) for x in span]
         labs = own + [L(x) for x in span2 if json.dumps(L(x)) not in {json.dumps(o) for o in own}]
-        labs += [L(x) for x in absent[:1]] + [L(x) for x in partial[:2]]
+        labs += [L(x) for x in absent[:1]] + [L(x) for x in partial]
         ends = [None] + labs
 
         def accesses(newv):
@@ -218,6 +225,72 @@ def sequence_cases(flavour, tag, spec, n, equal, absent, partial, steps):
         yield {'flavour': flavour, 'strict': False, 'span': spec, 'tag': tag, 'part': 'sequence', 'ops': ops}
 
 
+def sharing_cases(flavour, tag, spec, n, aliases=None):
+    """Whole-series assignment of LIVE arrays — another variable's own array (`obj.X`, `obj['X']`), views of it, one
+    caller-owned float64 array given to two variables — followed by label / label-slice / positional writes to one
+    of the variables and a read-back of ALL of them: a write addresses the labelled cells of the named variable and
+    nothing else, whatever was assigned from whatever before."""
+    span = cc.make_span(spec)
+    own = [L(x) for x in span]
+    vs = {'X': X0[:n], 'Y': [x + 0.5 for x in X0[:n]], 'Z': [x + 0.25 for x in X0[:n]]}
+    if flavour in ('acontainer', 'amodel'):
+        names = {'X': 'Y', 'Y': 'C', 'Z': 'I'}          # the alias classes declare Y, C, I (+ aliases GDP, INV, OUT)
+        via = {'X': 'GDP', 'Y': 'C', 'Z': 'INV'}         # names used for access: through aliases where there is one
+    else:
+        names = {'X': 'X', 'Y': 'Y', 'Z': 'Z'}
+        via = dict(names)
+    if flavour in ('container', 'acontainer'):
+        setup = [{'op': 'addVariable', 'name': names[k], 'v': enc_operand(v), 'dtype': 'f'} for k, v in vs.items()]
+    elif flavour == 'amodel':
+        setup = [{'op': 'setItem', 'name': names[k], 'v': enc_operand(v)} for k, v in vs.items()]
+    else:
+        setup = [{'op': 'addVariable', 'name': names[k], 'v': enc_operand(v), 'dtype': 'f'} for k, v in vs.items()]
+    everything = [{'op': 'getItem', 'name': names[k]} for k in vs] + [{'op': 'getAttr', 'name': via[k]} for k in vs]
+    counter = [300.0]
+
+    def writes(target):
+        ops = []
+        for lab in own[:3]:
+            counter[0] += 1
+            ops.append({'op': 'setLabel', 'name': via[target], 'label': lab, 'v': enc_operand(counter[0])})
+            ops += everything
+        for a, b, st in ((None, own[-1], None), (own[0], None, 2), (own[0], own[min(1, n - 1)], None)):
+            counter[0] += 1
+            ops.append({'op': 'setLabelSlice', 'name': via[target], 'a': a, 'b': b, 'step': st, 'v': enc_operand(counter[0])})
+            ops += everything
+        counter[0] += 1
+        ops.append({'op': 'setPos', 'name': via[target], 'i': -1, 'v': enc_operand(counter[0])})
+        ops += everything
+        ops += [{'op': 'getLabel', 'name': via[k], 'label': lab} for k in vs for lab in own[:2]]
+        return ops
+    ext_arr = enc_operand(np.array([x + 7.0 for x in X0[:n]], dtype='float64'))
+    ext = {**ext_arr, 't': 'ext', 'id': 0}
+    ops = list(setup)
+    for how, op in (('attr', 'setAttr'), ('key', 'setItem'), ('view', 'setAttr'), ('rev', 'setItem')):
+        ops.append({'op': op, 'name': via['Y'], 'v': {'t': 'ref', 'name': names['X'], 'how': how}})
+        ops += everything + writes('X') + writes('Y')
+    ops.append({'op': 'setAttr', 'name': via['Y'], 'v': ext})
+    ops.append({'op': 'setItem', 'name': via['Z'], 'v': ext})
+    ops += everything + writes('Y') + writes('Z')
+    ops.append({'op': 'setAttr', 'name': via['X'], 'v': {'t': 'ref', 'name': names['Z'], 'how': 'attr'}})   # a chain Z -> X
+    ops += writes('Z') + writes('X')
+    if flavour not in ('linker', 'alinker'):
+        ops.append({'op': 'copy'})
+        ops += writes('X')
+        ops.append({'op': 'setItem', 'name': via['Z'], 'v': {'t': 'ref', 'name': names['X'], 'how': 'key'}})
+        ops += writes('Z')
+        target = (reindex_targets(tag, spec, n) or [spec])[0]
+        ops.append({'op': 'reindex', 'span': target})
+        ops.append({'op': 'setAttr', 'name': via['Y'], 'v': {'t': 'ref', 'name': names['X'], 'how': 'attr'}})
+        own2 = [L(x) for x in cc.make_span(target)]
+        own[:] = own2
+        ops += writes('X') + writes('Y')
+    case = {'flavour': flavour, 'strict': False, 'span': spec, 'tag': 'sharing:' + tag, 'part': 'sharing', 'ops': ops}
+    if aliases:
+        case['aliases'] = aliases
+    yield case
+
+
 # ---- oracle ---------------------------------------------------------------------------------------------------------
 
 class Oracle:
@@ -229,6 +302,7 @@ class Oracle:
         self.rep, self.case = rep, case
         self.partial = [json.dumps(x) for x in partial]
         self.aliases = case.get('aliases', [])
+        self.ref_span = None
         self.span_list = None
         self.distinct = True
         self.k = -1
@@ -244,17 +318,21 @@ class Oracle:
         """('pos', i) | ('range', [positions]) | ('absent',) | ('skip',)"""
         if json.dumps(lab_json) in self.partial:
             # pandas partial-string label: the periods it denotes are whatever pandas' own label indexing selects
-            if self.pser is None:
+            # (an alternative spelling / a partial string): it denotes what pandas' own `get_loc` on the span the
+            # object was GIVEN says — every exception there is "not in the span" (KeyError for the container)
+            if self.pidx is None:
                 return ('skip',)
             try:
-                r = self.pser.loc[dec_label(lab_json)]
-            except KeyError:
-                return ('absent',)
+                r = self.pidx.get_loc(dec_label(lab_json))
             except Exception:  # noqa: BLE001
-                return ('skip',)
-            if isinstance(r, pd.Series):
-                return ('range', [int(x) for x in r.tolist()])
-            return ('pos', int(r))
+                return ('absent',)
+            if isinstance(r, slice):
+                if r.step not in (None, 1):
+                    return ('skip',)
+                return ('range', list(range(len(self.span_list)))[r])
+            if isinstance(r, (int, np.integer)) and not isinstance(r, (bool, np.bool_)):
+                return ('pos', int(r))
+            return ('skip',)
         ps = positions_of(self.span_list, dec_label(lab_json))
         if not ps:
             return ('absent',)
@@ -274,11 +352,17 @@ class Oracle:
             self.k += 1
         if item is None or item['op'] in cc.BOUNDARY:
             # (re)start: positions are always computed from the span of the object now under test
-            self.span_list = list(obj.span)
+            # — of the span it was GIVEN (at construction / by reindex), which it must have kept as it is
+            given = obj.span if self.ref_span is None else self.ref_span
+            self.span_list = list(given)
             n = len(self.span_list)
             self.distinct = all(len(positions_of(self.span_list, x)) == 1 for x in self.span_list)
-            self.pser = (pd.Series(np.arange(n), index=obj.span)
-                         if isinstance(obj.span, pd.Index) and self.distinct else None)
+            self.pidx = given if isinstance(given, pd.Index) and self.distinct else None
+            if type(obj.span) is not type(given):
+                self.violate('span-type-changed', f'the object was given a {type(given).__name__} span and holds a '
+                             f'{type(obj.span).__name__}')
+            elif len(obj.span) != n or not all(safe_eq(a, b) for a, b in zip(obj.span, self.span_list)):
+                self.violate('span-labels-changed', f'the object was given span {self.span_list} and holds {list(obj.span)}')
             return
         if not self.distinct:
             return
@@ -337,6 +421,17 @@ class Oracle:
         elif op == 'setPos' and name in before and out == 'ok':
             i = item['i'] % n
             self.paths_agree(obj, name, i)
+        elif op in ('setAttr', 'setItem') and name in before and '_mat' in item:
+            # a live array (another variable's, a view, a caller-owned one) assigned to the whole series: its VALUES
+            # arrive in the target, no other variable changes
+            after = cc.snapshot(obj)
+            want = np.asarray(cc.dec_operand(item['_mat'])).astype(before[name].dtype)
+            if out != 'ok' or not cc.same_array(after[name], want):
+                self.violate('whole-series-live-array', f'{op} {name} <- live array {want.tolist()}: got {out}, '
+                             f'{after[name].tolist()}')
+            for other in before:
+                if other != name and not cc.same_array(after[other], before[other]):
+                    self.violate('label-write-touched-other-variable', f'{op} {name} <- live array changed {other}')
         elif op in ('setAttr', 'setItem') and name in before and out == 'ok' and item['v']['t'] == 'scalar':
             for i in range(n):
                 self.paths_agree(obj, name, i)
@@ -577,6 +672,23 @@ def all_cases(ctx, nmax, steps, seq_lengths=(4,)):
     for c in shadow_cases():
         cases.append(c)
         partials.append([])
+    # live arrays assigned between variables, then label writes (n = 4; every span type; all kinds of classes)
+    k = 0
+    for tag, spec, equal, absent, partial in span_catalogue(4):
+        if tag.endswith('-dup'):
+            continue
+        k += 1
+        fls = ['container'] + ([['model', 'built', 'linker'][k % 3]] if (ctx.tier != 'quick' or k % 2 == 0) else [])
+        for fl in fls:
+            for c in sharing_cases(fl, tag, spec, 4):
+                cases.append(c)
+                partials.append([L(x) for x in partial])
+    for span_type in ('list', 'numpy'):
+        spec = {'type': span_type, 'labels': [L(x) for x in ALIAS_SPANS[0][1]]}
+        for fl in ('acontainer', 'amodel'):
+            for c in sharing_cases(fl, 'alias-' + span_type, spec, 4, aliases=ALIASES):
+                cases.append(c)
+                partials.append([])
     k = 0
     for span_type in ('list', 'tuple', 'numpy', 'pindex'):
         for tag, labels, absent in ALIAS_SPANS:
